@@ -1213,3 +1213,53 @@ def r16(R):
             key='stored bytes of the record inspected')
     R.instance('BlobStorageMixin.is_blob_record', uses_of_record=n)
     R.require(n >= 1, 'is_blob_record no longer looks at its record')
+
+
+# ------------------------------------------------------------------ C13.R17
+@rule('C13.R17', 'the blob files of the transaction in progress are removed '
+      'only when the TRANSACTION is abandoned: the removers of the dirty '
+      'list are called from the abort path only (a refused call -- an undo, '
+      'a store -- leaves the files of the calls that succeeded)',
+      props=['C06', 'C05'], min_instances=2)
+def r17(R):
+    REMOVERS = ('_blob_tpc_abort', '_blob_remove_files')
+    ABORT = ('tpc_abort', '_abort', 'abort')
+    # who calls whom, by method name, over the whole package
+    callers = {}
+    sites = []
+    for f in R.prog.all_functions():
+        if '/tests/' in f.module.relpath or f.module.relpath.startswith(
+                'ZODB/tests'):
+            continue
+        for c in walk_local(f.node):
+            if isinstance(c, ast.Call) and isinstance(c.func, ast.Attribute):
+                callers.setdefault(c.func.attr, set()).add(f.name)
+                if c.func.attr in REMOVERS:
+                    sites.append((f, c))
+
+    def abort_only(name, seen=()):
+        if name in ABORT or name in REMOVERS:
+            return True
+        if name in seen:
+            return True
+        cs = callers.get(name)
+        if not cs:
+            return False
+        return all(abort_only(c, seen + (name,)) for c in cs)
+
+    for f, c in sites:
+        R.instance('%s calls %s' % (f.qualname, c.func.attr))
+        if not abort_only(f.name):
+            R.violation(
+                (f.module.relpath, f.qualname,
+                 ' '.join(ast.unparse(c).split()), c.lineno),
+                '%s calls %s outside the abort of the transaction: EVERY '
+                'blob file the transaction in progress has stored so far is '
+                'removed -- also those of calls that succeeded; when the '
+                'caller goes on (a refused undo or store is an exception of '
+                'one call) the transaction commits records whose blob files '
+                'are gone' % (f.qualname, c.func.attr),
+                key='dirty blob files removed outside abort')
+    R.require(len(sites) >= 2, 'expected the abort paths of FileStorage and '
+              'the blob wrapper to call the removers; found %d call site(s)'
+              % len(sites))
